@@ -89,9 +89,10 @@ package syntax
 //@   pure
 //@   ensures result >= startLoopIdx
 //@   ensures [not-past-the-table] startLoopIdx < len(l.Lines) ==> result < len(l.Lines)
+//@   ensures [stays-when-at-the-end] startLoopIdx + 1 >= len(l.Lines) ==> result == startLoopIdx
 //@   ensures [next-line-starts-after] result + 1 < len(l.Lines) ==> cursor < l.Lines[result+1].StartIdx
 //@   ensures [skipped-lines-start-before] forall k int :: startLoopIdx < k && k <= result ==> l.Lines[k].StartIdx <= cursor
-//@   loop 1 invariant startLoopIdx <= i && i < 9223372036854775807 && (startLoopIdx < len(l.Lines) ==> i < len(l.Lines))
+//@   loop 1 invariant startLoopIdx <= i && i < 9223372036854775807 && (startLoopIdx < len(l.Lines) ==> i < len(l.Lines)) && (startLoopIdx + 1 >= len(l.Lines) ==> i == startLoopIdx)
 //@   loop 1 invariant forall k int :: startLoopIdx < k && k <= i ==> l.Lines[k].StartIdx <= cursor
 //@   loop 1 decreases len(l.Lines) - i
 
@@ -123,7 +124,7 @@ package syntax
 //@ method (*Lexer).parseLine
 //@   requires lexerWF(l) && lastLineOK(l) && (c == RuneCR || c == RuneLF) && c == charAt(l, l.cursor)
 //@   modifies l.cursor, l.IndentType, l.Lines, mem(l.Lines)
-//@   ensures lexerWF(l) && l.cursor > old(l.cursor) && (l.Lines.base == old(l.Lines.base) || fresh(l.Lines))
+//@   ensures lexerWF(l) && l.cursor > old(l.cursor) && (l.Lines.base == old(l.Lines.base) || fresh(l.Lines)) && len(l.Lines) >= old(len(l.Lines))
 //@   ensures result == nil ==> lastLineOK(l) && len(l.Lines) > old(len(l.Lines)) && charAt(l, l.cursor) != RuneCR && charAt(l, l.cursor) != RuneLF
 //@   ensures result != nil ==> isSyntaxErrorAt(result, l)
 //@   loop 1 invariant lexerWF(l) && lastLineOK(l) && (ch == RuneCR || ch == RuneLF) && ch == charAt(l, l.cursor) && l.cursor >= old(l.cursor)
@@ -142,7 +143,7 @@ package syntax
 //@ method (*Lexer).ParseCRLF
 //@   requires lexerWF(l) && lastLineOK(l) && (c == RuneCR || c == RuneLF) && c == charAt(l, l.cursor)
 //@   modifies l.cursor, l.IndentType, l.Lines, mem(l.Lines)
-//@   ensures lexerWF(l) && l.cursor > old(l.cursor) && (l.Lines.base == old(l.Lines.base) || fresh(l.Lines))
+//@   ensures lexerWF(l) && l.cursor > old(l.cursor) && (l.Lines.base == old(l.Lines.base) || fresh(l.Lines)) && len(l.Lines) >= old(len(l.Lines))
 //@   ensures result == nil ==> lastLineOK(l) && len(l.Lines) > old(len(l.Lines))
 //@   ensures result != nil ==> isSyntaxErrorAt(result, l)
 
@@ -150,20 +151,23 @@ package syntax
 //@   requires lexerWF(l) && l.cursor == 0 && len(l.Lines) == 0
 //@   modifies l.cursor, l.IndentType, l.Lines, mem(l.Lines)
 //@   ensures lexerWF(l) && (l.Lines.base == old(l.Lines.base) || fresh(l.Lines))
-//@   ensures result == nil ==> lastLineOK(l)
+//@   ensures result == nil ==> lastLineOK(l) && (charAt(l, 0) != 0 ==> len(l.Lines) >= 1) && (charAt(l, 0) == 0 ==> l.cursor == 0 && len(l.Lines) == 0)
 //@   ensures result != nil ==> isSyntaxErrorAt(result, l)
 //@   loop 1 invariant lexerWF(l) && count >= 1 && len(l.Lines) == 1 && l.Lines[0].Indents == 0 && l.Lines[0].StartIdx == 0 && (l.Lines.base == old(l.Lines.base) || fresh(l.Lines))
 //@   loop 1 invariant l.cursor == count - 1 && charAt(l, l.cursor) == ch && (ch == RuneSP || ch == RuneTAB)
 //@   loop 1 decreases len(l.Source) - l.cursor
 
 // skips blanks and line breaks in front of the next token; afterwards the current character starts a token (or is end of input)
+// a lexer whose line table is still empty sits on a NUL / the end of an empty text (it can only report EOF or an error)
+//@ pred linesStarted(l *Lexer) = len(l.Lines) == 0 ==> charAt(l, l.cursor) == 0
 //@ method (*Lexer).PreNextToken
-//@   requires lexerWF(l) && (l.beginLex ? l.cursor == 0 && len(l.Lines) == 0 : lastLineOK(l))
+//@   requires lexerWF(l) && (l.beginLex ? l.cursor == 0 && len(l.Lines) == 0 : lastLineOK(l) && linesStarted(l))
 //@   modifies l.cursor, l.IndentType, l.Lines, mem(l.Lines), l.beginLex
-//@   ensures lexerWF(l) && l.cursor >= old(l.cursor) && !l.beginLex && (l.Lines.base == old(l.Lines.base) || fresh(l.Lines))
+//@   ensures lexerWF(l) && l.cursor >= old(l.cursor) && !l.beginLex && (l.Lines.base == old(l.Lines.base) || fresh(l.Lines)) && len(l.Lines) >= old(len(l.Lines))
+//@   ensures [first-line-recorded] result == nil ==> linesStarted(l)
 //@   ensures result == nil ==> lastLineOK(l) && !IsWhiteSpace(charAt(l, l.cursor)) && charAt(l, l.cursor) != RuneCR && charAt(l, l.cursor) != RuneLF
 //@   ensures result != nil ==> isSyntaxErrorAt(result, l)
-//@   loop 1 invariant lexerWF(l) && lastLineOK(l) && l.cursor >= old(l.cursor) && !l.beginLex && (l.Lines.base == old(l.Lines.base) || fresh(l.Lines))
+//@   loop 1 invariant lexerWF(l) && lastLineOK(l) && l.cursor >= old(l.cursor) && !l.beginLex && (l.Lines.base == old(l.Lines.base) || fresh(l.Lines)) && len(l.Lines) >= old(len(l.Lines)) && linesStarted(l)
 //@   loop 1 decreases len(l.Source) - l.cursor
 
 //@ pred inRunes(ch rune, list []rune) = exists i int :: 0 <= i && i < len(list) && list[i] == ch
@@ -252,3 +256,61 @@ package syntax
 
 // length of the physical line break that starts at position i: CR LF and LF CR count as one break (C18)
 //@ fn breakLen(a rune, b rune) int = ((a == 13 && b == 10) || (a == 10 && b == 13)) ? 2 : 1
+
+// GetLineInfo returns a pointer into the line table (an interior pointer, outside the verified subset): trusted, with
+// the index precondition its body needs; callers only read the two fields
+//@ method (*Lexer).GetLineInfo
+//@   trusted
+//@   requires l != nil && 0 <= idx
+//@   modifies nothing
+//@   ensures idx >= len(l.Lines) ==> result == nil
+//@   ensures idx < len(l.Lines) ==> result != nil && result.Indents == l.Lines[idx].Indents && result.StartIdx == l.Lines[idx].StartIdx
+
+// line stamps: the only thing SetCurrentLine touches is the line field of the node's base part
+//@ iface Statement.SetCurrentLine(self, line)
+//@   requires self != nil
+//@   modifies key:F$syntax.StmtBase$currentLine, key:F$syntax.ExprBase$currentLine
+//@ iface Expression.SetCurrentLine(self, line)
+//@   requires self != nil
+//@   modifies key:F$syntax.StmtBase$currentLine, key:F$syntax.ExprBase$currentLine
+//@ method (*StmtBase).SetCurrentLine
+//@   requires b != nil
+//@   modifies b.currentLine
+//@ method (*ExprBase).SetCurrentLine
+//@   requires e != nil
+//@   modifies e.currentLine
+
+//@ method (*PrimeExpr).SetLiteral
+//@   requires pe != nil
+//@   modifies pe.Literal
+
+// ---- Parser.Parse: the recover point of the front end ----
+// The productions report errors by panicking with a positioned *SyntaxError (clause `panics` of every production in
+// package zh); Parse turns a recovered error value into its error result and re-raises anything that is not an error.
+// (The link "what is recovered here is what a production panicked with" is Go's semantics, not a proved clause.)
+//@ pred lexerFresh(l *Lexer) = l != nil && lexerWF(l) && l.beginLex && l.cursor == 0 && len(l.Lines) == 0
+//@ iface ASTBuilder.ParseAST(self, lexer) (pg, err)
+//@   requires self != nil && lexerFresh(lexer)
+//@   modifies *
+//@   ensures [tree-or-error] pg != nil
+//@ func NewLexer
+//@   modifies nothing
+//@   ensures fresh(result) && lexerFresh(result) && result.Source == source
+//@ func NewParser
+//@   modifies nothing
+//@   ensures result != nil && fresh(result) && result.ASTBuilder == astBuilder && lexerFresh(result.Lexer) && fresh(result.Lexer)
+//@ method (*Parser).Parse
+//@   requires p != nil && p.ASTBuilder != nil && p.ASTBuilder.ptr != 0 && lexerFresh(p.Lexer)
+//@   modifies *
+//@   ensures [tree-or-error] err == nil ==> ast != nil
+//@ closure (*Parser).Parse$1
+//@   modifies *
+//@   panics true
+// Compile is what the evaluator calls. Its frame is TRUSTED (the one-line body is not checked against it): the front end
+// writes only its own lexer and parser objects and the tree it allocates - it has no access to a VM. The front end's own
+// functions are verified with `modifies *`, which is why this statement cannot be derived from their contracts.
+//@ method (*Parser).Compile
+//@   trusted
+//@   requires p != nil && p.ASTBuilder != nil && p.ASTBuilder.ptr != 0 && lexerFresh(p.Lexer)
+//@   modifies p.Lexer.cursor, p.Lexer.IndentType, p.Lexer.Lines, mem(p.Lexer.Lines), p.Lexer.beginLex, key:F$zh.ParserZH$Lexer, key:F$zh.ParserZH$TokenP1, key:F$zh.ParserZH$TokenP2, key:F$zh.ParserZH$StartLineIdxP1, key:F$zh.ParserZH$EndLineIdxP1, key:F$zh.ParserZH$StartLineIdxP2, key:F$zh.ParserZH$EndLineIdxP2, key:F$zh.ParserZH$stmtCompleteFlag, key:F$syntax.StmtBase$currentLine, key:F$syntax.ExprBase$currentLine
+//@   ensures [tree-or-error] (err == nil ==> ast != nil) && (err == nil || err.ptr != 0)
